@@ -10,7 +10,7 @@ try:
 except Exception as e:
     ok = False; print('MANIFEST INVALID', e)
 es = json.load(open('/root/.vp/EVIDENCE.schema.json'))
-for f in sorted(glob.glob(V + '/evidence/*.json')):
+for f in sorted(glob.glob(V + "/evidence/*.json") + glob.glob(V + "/evidence/thorough/*.json")):
     try:
         jsonschema.validate(json.load(open(f)), es); print(os.path.basename(f), 'ok')
     except Exception as e:
